@@ -388,15 +388,22 @@ Inductive lpc :=
 | LRefHeld    (* at the limit; next: Delete(marker) *)
 | LFailHeld   (* a read failed; next: Delete(marker) *)
 | LCreated | LRefused | LFailed
-| LBusy.      (* SetNX lost: Conflict, nothing touched *)
+| LBusy       (* SetNX lost: Conflict, nothing touched *)
+| LProbe.     (* `recheck` variant only (NOT the code): SetNX lost; next: Exists(marker) — gone => let in WITHOUT the marker *)
 Record lloc := { l_pc : lpc; l_fault : bool }.
 Record lsh := { q_n : nat; q_lock : bool }.
 
-Definition lstep (max : nat) (lo : lloc) (sh : lsh) : lloc * lsh :=
+(* AcquireAdmission is ONE storage call in the code: SetNX, won or lost.  recheck = true is the variant that looks at the
+   marker again after a lost SetNX and lets the request in when the marker has gone meanwhile — without taking it (refuted:
+   the next request's SetNX succeeds and two requests of the client are between count and create; the marker-less request's
+   Delete also removes the legitimate holder's marker). *)
+Definition lstep_gen (recheck : bool) (max : nat) (lo : lloc) (sh : lsh) : lloc * lsh :=
   let goto p := {| l_pc := p; l_fault := l_fault lo |} in
   match l_pc lo with
   | LNew => (goto LStart, sh)
-  | LStart => if q_lock sh then (goto LBusy, sh) else (goto LHeld, {| q_n := q_n sh; q_lock := true |})
+  | LStart => if q_lock sh then (goto (if recheck then LProbe else LBusy), sh)
+              else (goto LHeld, {| q_n := q_n sh; q_lock := true |})
+  | LProbe => if recheck && negb (q_lock sh) then (goto LHeld, sh) else (goto LBusy, sh)
   | LHeld => if l_fault lo then (goto LFailHeld, sh)
              else if max <=? q_n sh then (goto LRefHeld, sh) else (goto LCounted, sh)
   | LCounted => (goto LDoneHeld, {| q_n := S (q_n sh); q_lock := q_lock sh |})
@@ -405,6 +412,7 @@ Definition lstep (max : nat) (lo : lloc) (sh : lsh) : lloc * lsh :=
   | LFailHeld => (goto LFailed, {| q_n := q_n sh; q_lock := false |})
   | LCreated | LRefused | LFailed | LBusy => (lo, sh)
   end.
+Definition lstep := lstep_gen false.
 Definition l_holds (lo : lloc) : bool :=
   match l_pc lo with LHeld | LDoneHeld | LRefHeld | LFailHeld => true | _ => false end.
 Definition l_counted (lo : lloc) : bool := match l_pc lo with LCounted => true | _ => false end.
